@@ -324,6 +324,7 @@ def i6(ctx, rid):
 def i7(ctx, rid):
     import props.c07 as c07
     c07.h6(ctx, rid)
+    c07.h6d(ctx, rid)
 
 
 def i8(ctx, rid):
